@@ -18,7 +18,7 @@ Traces == JsonDeserialize(IOEnv.TRACE_FILE)
 VARIABLES tid, l, mach, prev, sb, cnt, esw
 vars == <<tid, l, mach, prev, sb, cnt, esw>>
 
-Clauses == {"C01_Pos", "C01_Mode", "C02_Safe", "C02_Raises", "C02_OnlyDoc",
+Clauses == {"C01_Pos", "C01_Mode", "C01_Carries", "C02_Safe", "C02_Raises", "C02_OnlyDoc",
             "C03_Words", "C03_Reject", "C03_NaN", "C05_NoEmit", "C05_NoEffect",
             "C06_Off", "C07_Tool", "C07_Coolant", "C07_Modal", "C07_Temps", "C07_Params",
             "C08_Lex", "C20_Count", "C20_Geometry", "C20_Params", "C20_Extrusion", "C20_ExtrusionF14"}
@@ -26,6 +26,7 @@ Clauses == {"C01_Pos", "C01_Mode", "C02_Safe", "C02_Raises", "C02_OnlyDoc",
 Holds(c, e, p, m, m2, M, s) ==
   CASE c = "C01_Pos"      -> C01_Pos(e, p, m, m2, M)
     [] c = "C01_Mode"     -> C01_Mode(e, p, m, m2, M)
+    [] c = "C01_Carries"  -> C01_Carries(e, p, m, m2, M)
     [] c = "C02_Safe"     -> C02_Safe(e, p, m, m2, M)
     [] c = "C02_Raises"   -> C02_Raises(e, p, m, m2, M)
     [] c = "C02_OnlyDoc"  -> C02_OnlyDoc(e, p, m, m2, M)
@@ -50,6 +51,7 @@ Holds(c, e, p, m, m2, M, s) ==
 \* non-vacuity: the situations in which the clause says something
 Ante(c, e, p, m, m2, M, s) ==
   CASE c = "C01_Pos"      -> C01_Pos_Ante(e, p, m, m2, M)
+    [] c = "C01_Carries"  -> C01_Carries_Ante(e, p, m, m2, M)
     [] c = "C02_Safe"     -> e.lines # <<>>
     [] c = "C02_Raises"   -> WouldBeUnsafe(e, p)
     [] c = "C02_OnlyDoc"  -> Rejected(e)
